@@ -1,5 +1,6 @@
 import St4sd.Model.Env
 import St4sd.Model.C17Vars
+import St4sd.Model.C17Scalar
 /-!
 Witnesses for C17.
 
@@ -86,5 +87,40 @@ theorem accumulating_context_depends_on_other_envs :
       (some "b_tools".toList) false false ≠
     envForNodeV sys (instDocAcc ⟨pkgV', varsV⟩ "cluster".toList (safeOf false)) "cluster".toList []
       (some "b_tools".toList) false false := by decide
+
+/-! ### typed scalars: the conversion must map only null to the empty text
+
+`Scalar.textFalsy` is `str(value) if value else ""` in place of `env_value_to_string` (flowir.py 5557-5560): every
+falsy scalar becomes the empty text.  Package: the default platform declares `OMP: 4, USE_GPU: true, SCALE: 1.5`
+and `LAUNCH: run --threads=${OMP} --gpu=$USE_GPU`, platform `single` re-declares them as `0 / false / 0.0`; the
+launch environment has an `OMP` of its own.  (The harness finds such inputs on the real code: oracle
+`declared-variable-missing`.) -/
+
+def pkgT : TEnvs :=
+  [("default".toList, [("gpu".toList, [("OMP".toList, .int 4), ("USE_GPU".toList, .bool true),
+      ("SCALE".toList, .float "1.5".toList),
+      ("LAUNCH".toList, .str "run --threads=${OMP} --gpu=$USE_GPU".toList)])]),
+   ("single".toList, [("gpu".toList, [("OMP".toList, .int 0), ("USE_GPU".toList, .bool false),
+      ("SCALE".toList, .float "0.0".toList)])])]
+def launchT : Dict := [("OMP".toList, "64".toList)]
+
+/-- as coded: the three variables are there with the texts `0`, `False`, `0.0`, and references see them -/
+theorem falsy_scalars_are_values :
+    envForNodeT sys pkgT "single".toList launchT (some "gpu".toList) false true false =
+      .ok [("INSTANCE_DIR".toList, "/i".toList), ("OMP".toList, "0".toList), ("USE_GPU".toList, "False".toList),
+           ("SCALE".toList, "0.0".toList), ("LAUNCH".toList, "run --threads=0 --gpu=False".toList)] := by decide
+
+/-- with the falsy conversion the platform's values still override the default platform's and are then dropped:
+the task runs without `OMP`, `USE_GPU`, `SCALE`, and the references expand to nothing -/
+theorem falsy_conversion_drops_declared_variables :
+    envForNode sys (loadEnvs (textEnvsWith Scalar.textFalsy pkgT)) "single".toList launchT (some "gpu".toList) false =
+      .ok [("INSTANCE_DIR".toList, "/i".toList), ("LAUNCH".toList, "run --threads= --gpu=".toList)] := by decide
+
+/-- … so `Props.C17.text_isEmpty` / `typed_declared_kept` are false for that conversion -/
+theorem falsy_conversion_empties_nonempty_scalars :
+    (Scalar.int 0).declaredEmpty = false ∧ (Scalar.int 0).textFalsy = [] ∧
+    (Scalar.bool false).declaredEmpty = false ∧ (Scalar.bool false).textFalsy = [] ∧
+    (Scalar.float "0.0".toList).declaredEmpty = false ∧ (Scalar.float "0.0".toList).textFalsy = [] ∧
+    (Scalar.int 1).textFalsy = "1".toList ∧ (Scalar.bool true).textFalsy = "True".toList := by decide
 
 end St4sd.C17.Witness
